@@ -722,6 +722,22 @@ func ruleCtorAgree(c *Ctx) {
 					f := fieldOf(fa)
 					have[p.ownerName(f)+"."+f.Name()] = true
 				}
+				// a store through the address a helper handed back (`*list.nextSlot(last) = item`): the fields whose
+				// addresses that helper can return
+				if sl, ok := st.Addr.(*ssa.Call); ok {
+					if g := sl.Call.StaticCallee(); g != nil && p.InPkg(g) {
+						for _, gb := range g.Blocks {
+							if ret, ok := gb.Instrs[len(gb.Instrs)-1].(*ssa.Return); ok && len(ret.Results) == 1 {
+								for _, leaf := range phiLeaves(ret.Results[0], map[ssa.Value]bool{}) {
+									if fa, ok := leaf.(*ssa.FieldAddr); ok {
+										f := fieldOf(fa)
+										have[p.ownerName(f)+"."+f.Name()] = true
+									}
+								}
+							}
+						}
+					}
+				}
 			}
 			if call, ok := in.(ssa.CallInstruction); ok && depth < 3 {
 				if g := call.Common().StaticCallee(); g != nil && p.InPkg(g) && g != fn {
